@@ -452,6 +452,50 @@ func c17Random(r *rand.Rand, documented, malformed bool) c17Args {
 	return a
 }
 
+// c17Glue decorates a world with the options that only travel through the cli into loader.Options.
+func c17Glue(ctx *core.Ctx, a c17Args) c17Args {
+	r := ctx.Rng
+	ins := func(o c17Opt) {
+		at := r.Intn(len(a.Opts) + 1)
+		a.Opts = append(a.Opts[:at:at], append([]c17Opt{o}, a.Opts[at:]...)...)
+	}
+	// names of compose files carry templates more often here
+	for fi := range a.Files {
+		for di := range a.Files[fi] {
+			if r.Intn(3) == 0 {
+				a.Files[fi][di].Name = c17PnFileNames[r.Intn(len(c17PnFileNames))]
+			}
+		}
+	}
+	for i := range a.Opts {
+		if a.Opts[i].Op == "envfiles" && len(a.Opts[i].L) <= 1 && r.Intn(2) == 0 {
+			v := ""
+			if len(a.Opts[i].L) == 1 {
+				v = a.Opts[i].L[0]
+			}
+			a.Opts[i] = c17Opt{Op: "envfile", V: v}
+			ctx.Count("glue-WithEnvFile")
+		}
+	}
+	switch r.Intn(4) {
+	case 0:
+		ins(c17Opt{Op: "interp", B: false})
+		ctx.Count("glue-interp=false")
+	case 1:
+		ins(c17Opt{Op: "interp", B: false})
+		ins(c17Opt{Op: "interp", B: true})
+		ctx.Count("glue-interp=two-calls")
+	case 2:
+		ins(c17Opt{Op: "interp", B: true})
+		ctx.Count("glue-interp=true")
+	}
+	if r.Intn(3) == 0 {
+		ins(c17Opt{Op: "loname", V: pick(r, []string{"smuggled", "Bad Name", ""}), B: r.Intn(2) == 0})
+		ctx.Count("glue-WithLoadOptions(SetProjectName)")
+	}
+	return a
+}
+
 func runC17(ctx *core.Ctx) {
 	// 0. NormalizeProjectName on every code point (blocks), then on strings
 	blocks := 0
@@ -505,6 +549,16 @@ func runC17(ctx *core.Ctx) {
 		ctx.Count("random-config-selection")
 		ctx.Add("c17load", c17RandomCfg(ctx.Rng, i%2 == 0))
 	}
+	// 2b. the glue between the cli and the loader (round 5): WithInterpolation anywhere (the last call decides),
+	// the deprecated WithEnvFile, a SetProjectName passed through WithLoadOptions (overridden by the precedence)
+	for i := 0; i < ctx.Pick(1500, 60000); i++ {
+		a := c17Glue(ctx, c17Random(ctx.Rng, i%3 != 0, false))
+		ctx.Count("glue")
+		ctx.Add("c17load", a.wire())
+	}
+	// 2c. the loader-level entry: SetProjectName(name, imperative) × SkipInterpolation × nil/non-nil environment
+	c17PnLattice(ctx)
+	c17PnRandom(ctx)
 	// 3. malformed stream
 	for i := 0; i < ctx.Pick(2500, 50000); i++ {
 		ctx.Count("malformed")
